@@ -7,6 +7,7 @@ package ristretto
 
 import (
 	"fmt"
+	"math"
 	"sort"
 	"strings"
 	"testing"
@@ -304,8 +305,13 @@ func vfGenPolicyCase(t *rapid.T) *vfPolicyCase {
 	costMode := rapid.IntRange(0, 2).Draw(t, "costmode")
 	freqMode := rapid.IntRange(0, 2).Draw(t, "freqmode")
 	var sum int64
+	// key hash 0 is an ordinary key (Set(uint64(0), ...)), and so is the largest one
+	base := uint64(rapid.SampledFrom([]int{1, 1, 0}).Draw(t, "keybase"))
 	for i := 0; i < npop; i++ {
-		r := vfResident{Key: uint64(i + 1)}
+		r := vfResident{Key: base + uint64(i)}
+		if i == npop-1 && rapid.IntRange(0, 7).Draw(t, "maxkey") == 0 {
+			r.Key = math.MaxUint64
+		}
 		if rapid.IntRange(0, 5).Draw(t, "bigkey") == 0 {
 			r.Key = rapid.Uint64Range(100, 1<<62).Draw(t, "key")
 		}
@@ -379,6 +385,9 @@ func vfGenPolicyCase(t *rapid.T) *vfPolicyCase {
 		}
 	}
 	c.In.Key = uint64(1000 + rapid.IntRange(0, 5).Draw(t, "inkey"))
+	if base == 1 && rapid.IntRange(0, 9).Draw(t, "inzero") == 0 {
+		c.In.Key = 0
+	}
 	if len(c.Pop) > 0 && rapid.IntRange(0, 9).Draw(t, "inresident") == 0 {
 		c.In.Key = c.Pop[rapid.IntRange(0, len(c.Pop)-1).Draw(t, "inidx")].Key
 	}
